@@ -9,7 +9,7 @@
       every run.  [Sem.front_accepts] is the conjunction  parse succeeds && verdict = SemOk. *)
 From Coq Require Import List Arith ZArith Bool.
 From Gocc Require Import LR.Parse LR.Validate LR.Trees LR.Sound LR.SoundTop LR.SoundGated LR.Complete
-  Front.FUnicode Front.FScan Front.FScanProofs Front.Sem Front.SemProofs Front.SemTop.
+  Front.FUnicode Front.FScan Front.FScanProofs Front.Sem Front.SemProofs Front.SemTop Front.SemRange.
 Import ListNotations.
 
 (** success of the front-end parser implies the token sequence is a sentence of the grammar the tables were
@@ -80,3 +80,11 @@ Theorem C14_well_formed_sentences_accepted : forall ft g tb an toks,
   forall fuel, (size t + 1 <= fuel)%nat -> front_accepts ft tb fuel toks = true.
 Proof. exact front_accepts_complete. Qed.
 Print Assumptions C14_well_formed_sentences_accepted.
+
+(** the check that runs while the patterns are built (repair of defect D17): the model the harness runs is
+    [front_accepts_r]; it accepts exactly when [front_accepts] does and no range  lo '-' hi  has decoded bounds lo > hi *)
+Theorem C14_empty_ranges_refused : forall ft cl mn tb fuel toks,
+  front_accepts_r ft cl mn tb fuel toks = true <->
+  front_accepts ft tb fuel toks = true /\ no_empty_range cl mn toks.
+Proof. exact front_accepts_r_iff. Qed.
+Print Assumptions C14_empty_ranges_refused.
